@@ -159,7 +159,10 @@ func cmdFidelity(args []string) error {
 		for k := 0; k < r.intn(6); k++ {
 			name := pick(r, names)
 			for v := 0; v < 1+r.intn(2); v++ {
-				hdr.Add(name, pick(r, []string{"v", "a, b", "", "ü-ñ", strings.Repeat("z", 1+r.intn(40)), "Bearer secret"}))
+				hdr.Add(name, pick(r, []string{"v", "a, b", "", "ü-ñ", strings.Repeat("z", 1+r.intn(40)), "Bearer secret",
+					// valid UTF-8 that text encoders treat specially: astral code points that are not printable (tag characters, private
+					// use planes, the last code point), the JSON-escaped separators, quote and backslash, a byte-order mark
+					"flag-\U0001F3F4\U000E0067\U000E0062\U000E007F", "pua-\U000F0000-\U0010FFFD", "max-\U0010FFFF", "sep-\u2028-\u2029", "q\"b\\c", "bom-\uFEFF", "emoji-\U0001F600"}))
 			}
 		}
 		if r.chance(35) {
@@ -179,7 +182,7 @@ func cmdFidelity(args []string) error {
 			item := map[string]interface{}{"id": fmt.Sprintf("pub%d", i), "route": "/f", "target": "pull", "payload_b64": base64.StdEncoding.EncodeToString(body)}
 			ph := map[string]string{}
 			if r.chance(50) {
-				ph["X-Pub"] = pick(r, []string{"1", "a b", "ü"})
+				ph["X-Pub"] = pick(r, []string{"1", "a b", "ü", "pua-\U000F0000", "tag-\U000E0067", "sep-\u2028", "q\"b\\c"})
 				item["headers"] = ph
 			}
 			pb, _ := json.Marshal(map[string]interface{}{"items": []interface{}{item}})
